@@ -716,8 +716,17 @@ impl<'s, T: Kind, N: Unsigned + Send + Sync, U: UpdateMap<T> + PartialEq + Send 
                 }
             }
             "clone" => {
-                let c = self.coll(n(1)?)?.clone();
-                self.colls.insert(n(2)?, c);
+                // `Clone::clone_from` into an existing handle of the same type, `clone` otherwise: the
+                // two must mean the same
+                let src = self.coll(n(1)?)?.clone();
+                let dst = n(2)?;
+                match (self.colls.get_mut(&dst), &src) {
+                    (Some(Handle::L(d)), Handle::L(sv)) => d.clone_from(sv),
+                    (Some(Handle::V(d)), Handle::V(sv)) => d.clone_from(sv),
+                    _ => {
+                        self.colls.insert(dst, src);
+                    }
+                }
                 "ok".to_string()
             }
             "tovector" => {
